@@ -4,3 +4,4 @@ pub mod c06;
 pub mod c08;
 pub mod c17;
 pub mod c20;
+pub mod c19;
